@@ -142,6 +142,21 @@ Example bad_cfgs_rejected :
   tdiffers bad_cfg_slot_key [New 0; Query 0 "volumes" [("mode", "linear")]; Query 0 "volumes" [("mode", "centroid")]] = true.
 Proof. vm_compute. repeat split; reflexivity. Qed.
 
+(* A writer that changes the connectivity in place (the translator lists a
+   stored array changed through a view / a helper parameter / out= as a write
+   of that field) and a query that changes a stored variable in place (listed
+   as a write of the whole table: never a by-product) are rejected, by the
+   clause FProtected. *)
+Definition bad_cfg_writer_inplace : config := mkcfg (queries good_cfg)
+  [ mke "write_fistr" true [] [("elements", None); ("settings", Some "solution_type")] [] [] ] (derivs good_cfg).
+Definition bad_cfg_query_inplace : config := mkcfg
+  [ mkq "volumes" 0 None (Some ("volume", ["mode"])) ["mode"] [("nodes", None); ("elements", None)]
+        [("elemental_data", None)] [] ] [] [].
+Example bad_cfgs_inplace_rejected :
+  cfg_ok bad_cfg_writer_inplace = false /\ In (FProtected "write_fistr") (failures bad_cfg_writer_inplace) /\
+  cfg_ok bad_cfg_query_inplace = false /\ In (FProtected "volumes") (failures bad_cfg_query_inplace).
+Proof. vm_compute. repeat split; auto. Qed.
+
 (* The section hypotheses are jointly satisfiable by a non-constant semantics,
    for every accepted inventory: the toy semantics of Model.v (versions of the
    fields read + relevant arguments) with arbitrary nested-call selection,
